@@ -7,10 +7,10 @@ Import ListNotations.
 Record case := { k_cfg : cfg; k_ops : list op; k_obs : list rec; k_preds : list bool }.
 
 Definition preds (k : case) : list bool :=
-  [foreign_uploaded_shared_dir (k_cfg k) (k_ops k); own_event_before_reply (k_cfg k) (k_ops k)].
+  [foreign_uploaded_shared_dir (k_cfg k) (canon (k_ops k)); own_event_before_reply (k_cfg k) (canon (k_ops k))].
 
 Definition check (k : case) : verdict :=
   if negb (wf (k_ops k)) then VSkip else
-  let m := trace_eqb (run (k_cfg k) (k_ops k)) (k_obs k)
+  let m := trace_eqb (run_named (k_cfg k) (k_ops k)) (k_obs k)
            && list_eqb Bool.eqb (preds k) (k_preds k) in
-  mk_verdict (Some m) (oracle (k_cfg k) (k_ops k) (k_obs k)).
+  mk_verdict (Some m) (oracle_named (k_cfg k) (k_ops k) (k_obs k)).
